@@ -14,7 +14,9 @@ inductive Tok where
   | rsub (m : String)               -- NewDataInputX(<stream>.m())
   | rl (m loc conv : String)        -- loc := conv(<stream>.m())
   | sw (e : String) | swrd | cs (n : Nat)
-  | ifnz (e : String) | ifz (e : String) | ifnil (e : String) | ifnn (e : String) | ifbit (k : Nat)
+  | ifnz (e : String) | ifz (e : String) | ifnil (e : String) | ifnn (e : String) | ifbit (f : String) (k : Nat)   -- if this.f & k != 0
+  | iftype (v ty : String)          -- if _, ok := v.(ty); ok
+  | asgcast (f fty v ty : String)   -- this.f = v.(ty)
   | iflt (loc : String) (k : Nat) | ifeq (loc : String) (k : Nat) | ifpos (loc : String)
   | ifrdpos | ifavail | iff (c : String)
   | el | en | lp (c : String) | so | sc | fr (e : String) | pn | ret
